@@ -877,4 +877,198 @@ theorem insert_seq (n n1 : Norm) (e : Ev) (hs : Safe n e = true) (hc : startsRig
       exact featView_of_items k.feat q q' a4 a1 a2 a3)
     exact ⟨k3, k2 hw⟩
 
+/-! ## a sequential stream passes through unchanged -/
+
+set_option linter.unusedSimpArgs false
+
+/-- the queue that shows automaton state `s` with nothing buffered -/
+def canonItems (rule : Option Nat) (att : Option (ScenKey × Option Retries)) : List Item :=
+  match rule, att with
+  | none, none => []
+  | none, some (k, ret) => [.att { scen := k.scen, ret := ret, evs := [] }]
+  | some r, none => [.rule r { initial := false, fin := .no, atts := [] }]
+  | some r, some (k, ret) => [.rule r { initial := false, fin := .no, atts := [{ scen := k.scen, ret := ret, evs := [] }] }]
+
+def canon (s : SeqSt) : List (Nat × FeatQ) :=
+  match s.feat with
+  | none => []
+  | some f => [(f, { initial := false, fin := .no, items := canonItems s.rule s.att })]
+
+/-- reachable automaton states -/
+def stOk (s : SeqSt) : Bool :=
+  match s.feat with
+  | none => s.rule.isNone && s.att.isNone
+  | some f => match s.att with
+    | none => true
+    | some (k, _) => k.feat == f && k.rule == s.rule
+
+theorem canon_step (s s' : SeqSt) (e : Ev) (hok : stOk s = true) (hf : s.finished = false)
+    (h : seqStep s e = some s') (hne : e ≠ .finished) :
+    ({ feats := canon s, fin := .no } : Norm).handle e = some ({ feats := canon s', fin := .no }, [e]) ∧ stOk s' = true ∧
+    s'.finished = false := by
+  obtain ⟨feat, rule, att, fin⟩ := s
+  simp only at hf
+  subst hf
+  cases e with
+  | started =>
+    simp only [seqStep, Bool.false_eq_true, if_false, Option.some.injEq] at h; subst h
+    refine ⟨?_, hok, rfl⟩
+    cases feat <;> cases rule <;> cases att <;> simp_all [Norm.handle, Norm.insert, canon, canonItems, emitFeats, emitItems, emitRule, emitAtts, emitAtt, Ev.isRunLevel, stOk, wrapAtt]
+  | parsingFinished a b c d g =>
+    simp only [seqStep, Bool.false_eq_true, if_false, Option.some.injEq] at h; subst h
+    refine ⟨?_, hok, rfl⟩
+    cases feat <;> cases rule <;> cases att <;> simp_all [Norm.handle, Norm.insert, canon, canonItems, emitFeats, emitItems, emitRule, emitAtts, emitAtt, Ev.isRunLevel, stOk, wrapAtt]
+  | parseErr i =>
+    simp only [seqStep, Bool.false_eq_true, if_false, Option.some.injEq] at h; subst h
+    refine ⟨?_, hok, rfl⟩
+    cases feat <;> cases rule <;> cases att <;> simp_all [Norm.handle, Norm.insert, canon, canonItems, emitFeats, emitItems, emitRule, emitAtts, emitAtt, Ev.isRunLevel, stOk, wrapAtt]
+  | finished => exact absurd rfl hne
+  | featStarted f =>
+    simp only [seqStep, Bool.false_eq_true, if_false] at h
+    split at h
+    · rename_i hc
+      simp only [Option.some.injEq] at h; subst h
+      cases feat with
+      | some x => simp at hc
+      | none =>
+        simp only [stOk, Bool.and_eq_true, Option.isNone_iff_eq_none] at hok
+        obtain ⟨rfl, rfl⟩ := hok
+        simp [Norm.handle, Norm.insert, canon, canonItems, emitFeats, emitItems, FeatQ.new, Ev.isRunLevel, stOk]
+    · cases h
+  | featFinished f =>
+    simp only [seqStep, Bool.false_eq_true, if_false] at h
+    split at h
+    · rename_i hc
+      simp only [Option.some.injEq] at h; subst h
+      simp only [Bool.and_eq_true, beq_iff_eq, Option.isNone_iff_eq_none] at hc
+      obtain ⟨⟨rfl, rfl⟩, rfl⟩ := hc
+      simp [Norm.handle, Norm.insert, updFeat, canon, canonItems, emitFeats, emitItems, emitRule, emitAtts, emitAtt, Ev.isRunLevel, stOk, wrapAtt, FeatQ.newRule, FeatQ.ruleFinished, FeatQ.insertScen, updFirst, Item.isRule, Item.isAtt, Item.finishRule, Item.pushInRule, Item.pushAtt, pushAtt, AttQ.is, AttQ.push, RuleQ.new, FeatQ.new]
+    · cases h
+  | ruleStarted f r =>
+    simp only [seqStep, Bool.false_eq_true, if_false] at h
+    split at h
+    · rename_i hc
+      simp only [Option.some.injEq] at h; subst h
+      simp only [Bool.and_eq_true, beq_iff_eq, Option.isNone_iff_eq_none] at hc
+      obtain ⟨⟨rfl, rfl⟩, rfl⟩ := hc
+      simp [Norm.handle, Norm.insert, updFeat, canon, canonItems, emitFeats, emitItems, emitRule, emitAtts, emitAtt, Ev.isRunLevel, stOk, wrapAtt, FeatQ.newRule, FeatQ.ruleFinished, FeatQ.insertScen, updFirst, Item.isRule, Item.isAtt, Item.finishRule, Item.pushInRule, Item.pushAtt, pushAtt, AttQ.is, AttQ.push, RuleQ.new, FeatQ.new]
+    · cases h
+  | ruleFinished f r =>
+    simp only [seqStep, Bool.false_eq_true, if_false] at h
+    split at h
+    · rename_i hc
+      simp only [Option.some.injEq] at h; subst h
+      simp only [Bool.and_eq_true, beq_iff_eq, Option.isNone_iff_eq_none] at hc
+      obtain ⟨⟨rfl, rfl⟩, rfl⟩ := hc
+      simp [Norm.handle, Norm.insert, updFeat, canon, canonItems, emitFeats, emitItems, emitRule, emitAtts, emitAtt, Ev.isRunLevel, stOk, wrapAtt, FeatQ.newRule, FeatQ.ruleFinished, FeatQ.insertScen, updFirst, Item.isRule, Item.isAtt, Item.finishRule, Item.pushInRule, Item.pushAtt, pushAtt, AttQ.is, AttQ.push, RuleQ.new, FeatQ.new]
+    · cases h
+  | scen k ret se =>
+    obtain ⟨kf, kr, ks⟩ := k
+    simp only [seqStep, Bool.false_eq_true, if_false] at h
+    split at h
+    · rename_i hc
+      simp only [Bool.and_eq_true, beq_iff_eq] at hc
+      obtain ⟨rfl, rfl⟩ := hc
+      cases se with
+      | started =>
+        simp only at h
+        split at h
+        · rename_i ha
+          simp only [Option.isNone_iff_eq_none] at ha
+          subst ha
+          simp only [Option.some.injEq] at h; subst h
+          cases rule <;> simp [Norm.handle, Norm.insert, updFeat, canon, canonItems, emitFeats, emitItems, emitRule, emitAtts, emitAtt, Ev.isRunLevel, stOk, wrapAtt, FeatQ.newRule, FeatQ.ruleFinished, FeatQ.insertScen, updFirst, Item.isRule, Item.isAtt, Item.finishRule, Item.pushInRule, Item.pushAtt, pushAtt, AttQ.is, AttQ.push, RuleQ.new, FeatQ.new]
+        · cases h
+      | finished =>
+        simp only at h
+        split at h
+        · rename_i ha
+          simp only [beq_iff_eq] at ha
+          subst ha
+          simp only [Option.some.injEq] at h; subst h
+          cases rule <;> simp [Norm.handle, Norm.insert, updFeat, canon, canonItems, emitFeats, emitItems, emitRule, emitAtts, emitAtt, Ev.isRunLevel, stOk, wrapAtt, FeatQ.newRule, FeatQ.ruleFinished, FeatQ.insertScen, updFirst, Item.isRule, Item.isAtt, Item.finishRule, Item.pushInRule, Item.pushAtt, pushAtt, AttQ.is, AttQ.push, RuleQ.new, FeatQ.new]
+        · cases h
+      | hook t r =>
+        simp only at h
+        split at h
+        · rename_i ha
+          simp only [beq_iff_eq] at ha
+          subst ha
+          simp only [Option.some.injEq] at h; subst h
+          cases rule <;> simp [Norm.handle, Norm.insert, updFeat, canon, canonItems, emitFeats, emitItems, emitRule, emitAtts, emitAtt, Ev.isRunLevel, stOk, wrapAtt, FeatQ.newRule, FeatQ.ruleFinished, FeatQ.insertScen, updFirst, Item.isRule, Item.isAtt, Item.finishRule, Item.pushInRule, Item.pushAtt, pushAtt, AttQ.is, AttQ.push, RuleQ.new, FeatQ.new]
+        · cases h
+      | bg i r =>
+        simp only at h
+        split at h
+        · rename_i ha
+          simp only [beq_iff_eq] at ha
+          subst ha
+          simp only [Option.some.injEq] at h; subst h
+          cases rule <;> simp [Norm.handle, Norm.insert, updFeat, canon, canonItems, emitFeats, emitItems, emitRule, emitAtts, emitAtt, Ev.isRunLevel, stOk, wrapAtt, FeatQ.newRule, FeatQ.ruleFinished, FeatQ.insertScen, updFirst, Item.isRule, Item.isAtt, Item.finishRule, Item.pushInRule, Item.pushAtt, pushAtt, AttQ.is, AttQ.push, RuleQ.new, FeatQ.new]
+        · cases h
+      | step i r =>
+        simp only at h
+        split at h
+        · rename_i ha
+          simp only [beq_iff_eq] at ha
+          subst ha
+          simp only [Option.some.injEq] at h; subst h
+          cases rule <;> simp [Norm.handle, Norm.insert, updFeat, canon, canonItems, emitFeats, emitItems, emitRule, emitAtts, emitAtt, Ev.isRunLevel, stOk, wrapAtt, FeatQ.newRule, FeatQ.ruleFinished, FeatQ.insertScen, updFirst, Item.isRule, Item.isAtt, Item.finishRule, Item.pushInRule, Item.pushAtt, pushAtt, AttQ.is, AttQ.push, RuleQ.new, FeatQ.new]
+        · cases h
+      | log m =>
+        simp only at h
+        split at h
+        · rename_i ha
+          simp only [beq_iff_eq] at ha
+          subst ha
+          simp only [Option.some.injEq] at h; subst h
+          cases rule <;> simp [Norm.handle, Norm.insert, updFeat, canon, canonItems, emitFeats, emitItems, emitRule, emitAtts, emitAtt, Ev.isRunLevel, stOk, wrapAtt, FeatQ.newRule, FeatQ.ruleFinished, FeatQ.insertScen, updFirst, Item.isRule, Item.isAtt, Item.finishRule, Item.pushInRule, Item.pushAtt, pushAtt, AttQ.is, AttQ.push, RuleQ.new, FeatQ.new]
+        · cases h
+    · cases h
+
+theorem canon_finished (s s' : SeqSt) (hf : s.finished = false) (h : seqStep s .finished = some s') :
+    ({ feats := canon s, fin := .no } : Norm).handle .finished = some ({ feats := [], fin := .emitted }, [.finished]) ∧
+    s'.finished = true := by
+  obtain ⟨feat, rule, att, fin⟩ := s
+  simp only at hf
+  subst hf
+  simp only [seqStep, Bool.false_eq_true, if_false] at h
+  split at h
+  · rename_i hc
+    simp only [Bool.and_eq_true, Option.isNone_iff_eq_none] at hc
+    obtain ⟨⟨rfl, rfl⟩, rfl⟩ := hc
+    simp only [Option.some.injEq] at h; subst h
+    simp [Norm.handle, Norm.insert, canon, emitFeats, Ev.isRunLevel]
+  · cases h
+
+theorem seqRun_finished_nil (s s' : SeqSt) (evs : List Ev) (hf : s.finished = true) (h : seqRun s evs = some s') : evs = [] := by
+  cases evs with
+  | nil => rfl
+  | cons e es =>
+    rw [seqRun_cons] at h
+    simp [seqStep, hf] at h
+
+/-- a sequential stream passes through the canonical queue event by event -/
+theorem passthrough_from (s0 s : SeqSt) (evs : List Ev) (hok : stOk s0 = true) (hf : s0.finished = false)
+    (h : seqRun s0 evs = some s) :
+    ∃ n', normRun { feats := canon s0, fin := .no } evs = some (n', evs.map (fun e => [e])) := by
+  induction evs generalizing s0 with
+  | nil => exact ⟨_, rfl⟩
+  | cons e es ih =>
+    rw [seqRun_cons] at h
+    cases hs : seqStep s0 e with
+    | none => simp [hs] at h
+    | some s1 =>
+      simp only [hs, Option.bind_some] at h
+      by_cases he : e = .finished
+      · subst he
+        obtain ⟨hh, hfin⟩ := canon_finished s0 s1 hf hs
+        have := seqRun_finished_nil s1 s es hfin h
+        subst this
+        exact ⟨{ feats := [], fin := .emitted }, by simp [normRun, hh]⟩
+      · obtain ⟨hh, hok1, hf1⟩ := canon_step s0 s1 e hok hf hs he
+        obtain ⟨n', hn'⟩ := ih s1 hok1 hf1 h
+        exact ⟨n', by simp [normRun, hh, hn']⟩
+
+
 end Cuke.NormL
